@@ -14,6 +14,7 @@ Case(fam, p, doc, sps) ==
    path  |-> p,
    texts |-> [i \in 1..Len(sps) |-> Spell(p, sps[i])],
    det   |-> Determined(p, doc),
+   fdet  |-> FilterLogDet(p),
    res   |-> Response(p, doc)]
 
 EmitCase(c) == PrintT(ToJson(c))
